@@ -84,10 +84,17 @@ func seqAlphabet(era drive.Era) []seqEvent {
 		{name: "Wr", rates: R1(), submit: []seqTx{{name: "A>wrap", signer: KA, malformed: true, txs: []kit.Tx{{From: A, Asset: "pUSD", Amount: U / 10, To: []kit.Out{{Addr: B, Amount: 1<<63 - 1}, {Addr: C, Amount: 1<<63 - 1}, {Addr: B, Amount: U/10 + 2}}}}}}},
 		{name: "X", rates: R2(), submit: one("A:usd>jpy,A:jpy>B", KA, kit.Conversion(A, "pUSD", U/10, "pJPY"), kit.Transfer(A, "pJPY", U/10*50, B))},
 	}
+	if era.ConvLimit != drive.Never && era.V20 > era.Base+5 {
+		// the PEG bank: a request of one unit next to one of ten banks: its proportional share floors to nothing, all of it is refunded
+		ev = append(ev, seqEvent{name: "Pz", rates: R1(), submit: []seqTx{
+			{name: "A:1usd>PEG", signer: KA, txs: []kit.Tx{kit.Conversion(A, "pUSD", 1, "PEG")}},
+			{name: "A:fct>PEG", signer: KA, txs: []kit.Tx{kit.Conversion(A, "pFCT", 3000e8, "PEG")}}}})
+	}
 	if era.V202 != drive.Never {
 		// the staking records put pEUR outside the oracle records' tolerance band: from 2.0.2 on the block is rated, with
 		// pEUR recorded as 0 (a zero inside later averaging windows; pEUR conversions executing here are rejected)
 		ev = append(ev, seqEvent{name: "Z", rates: R2(), sprOff: "EUR"})
+		ev = append(ev, seqEvent{name: "Zm", rates: R1(), sprOff: "EUR", submit: one("A:eur>usd", KA, kit.Conversion(A, "pEUR", E/4, "pUSD"))})
 	}
 	return ev
 }
@@ -468,14 +475,26 @@ func seqPlanFor(thorough bool, prop string) []seqEra {
 	eq := drive.EraStage(drive.StPIP10)
 	eq.Name += "-across-snapshot-from-431"
 	snq := seqEra{era: eq, depth: 2, prefix: func(b *drive.Builder) { seqSnapshotPrefixTo(b, 431) }}
+	// the last two blocks before the sequences have no pEUR price: with the averaging period of 4 (2 required) a pEUR
+	// conversion submitted in another such block meets a window without enough pEUR prices (average unavailable)
+	ez := drive.EraStage(drive.StPIP10)
+	ez.Name += "-after-two-blocks-without-eur-price"
+	noeur := seqEra{era: ez, depth: 2, prefix: func(b *drive.Builder) {
+		FundStd(b)
+		for i := 0; i < 2; i++ {
+			h := b.Next()
+			rt := R1()
+			b.Add(drive.BlockSpec{Rates: rt, OPRPayTo: kit.AddrStr(KM), SPR: sprSet(ez, h, rt.With("EUR", rt[kit.AssetIndex("EUR")]*5/2), AddrA[:], KA, 25)})
+		}
+	}}
 	if !thorough {
-		return []seqEra{st(drive.StPIP10, 3), st(drive.StV4, 2), st(drive.StV202, 2), bd(drive.StV4, 2), bd(drive.StV204Burn, 2), bd(drive.StV20Dev, 2), bd(drive.StOneWayFCT, 2), snq, gap(2)}
+		return []seqEra{noeur, st(drive.StPIP10, 3), st(drive.StV4, 2), st(drive.StV202, 2), bd(drive.StV4, 2), bd(drive.StV204Burn, 2), bd(drive.StV20Dev, 2), bd(drive.StOneWayFCT, 2), snq, gap(2)}
 	}
 	// thorough: depth 3 everywhere, depth 4 in the current era and in one more era that depends on the property
 	// (the six properties share the explorer; between them every listed era is covered to depth 4)
 	plan := []seqEra{st(drive.StPIP10, 4), st(drive.StV202, 3), st(drive.StV4, 3), st(drive.StV20, 3), st(drive.StOneWayFCT, 3), st(drive.StBank, 3), st(drive.StPegPrice, 3),
 		bd(drive.StV4, 3), bd(drive.StV20Dev, 3), bd(drive.StV204Burn, 3), bd(drive.StPegPrice, 3), bd(drive.StOneWayFCT, 3), bd(drive.StBank, 3),
-		sn(drive.StPIP10, 3), sn(drive.StV202, 3), sn(drive.StV20Dev, 3), gap(4)}
+		sn(drive.StPIP10, 3), sn(drive.StV202, 3), sn(drive.StV20Dev, 3), gap(4), func() seqEra { e := noeur; e.depth = 3; return e }()}
 	deep := map[string]int{"C03": 2, "C04": 1, "C06": 13, "C07": 9, "C11": 5, "C13": 7, "C17": 14}
 	if i, ok := deep[prop]; ok {
 		plan[i].depth = 4
@@ -489,7 +508,7 @@ func seqPlanFor(thorough bool, prop string) []seqEra {
 
 var seqProps = []string{"C03", "C04", "C06", "C07", "C11", "C13", "C17"}
 
-const seqRule = " PLUS the sequence family: every sequence of block events (alphabet of 22: ungraded / graded at two rate vectors, transfers A>B and B>A, a transfer naming one recipient twice and the sender itself, a transfer with zero-amount outputs around the funded ones, conversions submitted in graded and ungraded blocks, a two-entry block, byte-identical copies of the previous entry, a PEG request, a chained batch in both orders, conversions into pFCT and into a small asset, a conversion whose output the same batch spends, a block with too few price records, an FCT burn with a pFCT conversion, a transfer whose outputs equal its input only modulo 2^64) up to the stated depth from a funded state in several eras; after EVERY block the balances of the three actors and the miner and the status of every submitted entry are compared with a reference ledger kept in maps; this property reports the discrepancies of its class"
+const seqRule = " PLUS the sequence family: every sequence of block events (alphabet of 22, 24 from 2.0.2 on: ungraded / graded at two rate vectors, transfers A>B and B>A, a transfer naming one recipient twice and the sender itself, a transfer with zero-amount outputs around the funded ones, conversions submitted in graded and ungraded blocks, a two-entry block, byte-identical copies of the previous entry, a PEG request, a chained batch in both orders, conversions into pFCT and into a small asset, a conversion whose output the same batch spends, a block with too few price records, an FCT burn with a pFCT conversion, a transfer whose outputs equal its input only modulo 2^64; from 2.0.2 on a block whose staking records put pEUR outside the tolerance band so that it is recorded as 0, with and without a pEUR conversion submitted in it; in the eras with a PEG bank a one-unit PEG request next to one of ten banks) up to the stated depth from a funded state in several eras; after EVERY block the balances of the three actors and the miner and the status of every submitted entry are compared with a reference ledger kept in maps; this property reports the discrepancies of its class"
 
 // files of a package are initialised in file-name order, so the drivers are registered by now
 func init() {
@@ -762,6 +781,9 @@ func (x *seqX) step(n *seqNode, ei int, report bool) (*seqNode, bool) {
 			r.Count("inconclusive-grading-differs-from-plan", 1)
 		}
 		return nn, false
+	}
+	if os.Getenv("PVMC_DEBUG") != "" {
+		fmt.Fprintf(os.Stderr, "DEBUG %s h=%d rates EUR=%d USD=%d PEG=%d nspr=%d\n", key, h, v.Rates[h]["pEUR"], v.Rates[h]["pUSD"], v.Rates[h]["PEG"], len(spec.SPR))
 	}
 	m.step(v, h, graded, entries)
 	if ev.burn != 0 && h < era.V20 {
